@@ -568,7 +568,7 @@ def has_falsy(excs: List[BaseException]) -> bool:
     return False
 
 
-MODES = ["json-text", "json-dict", "python-dict", "pickle"]
+MODES = ["json-text", "json-dict", "python-dict", "pickle", "pickle+init"]
 
 
 def round_trip(res: TaskiqResult, mode: str) -> Any:
@@ -578,7 +578,12 @@ def round_trip(res: TaskiqResult, mode: str) -> Any:
         return TaskiqResult.model_validate(res.model_dump(mode="json"))
     if mode == "python-dict":
         return TaskiqResult.model_validate(res.model_dump())
-    return pickle.loads(pickle.dumps(res))
+    back = pickle.loads(pickle.dumps(res))
+    if mode == "pickle+init":
+        # a backend that un-pickles and builds a fresh result object from the fields (the model's own validation runs,
+        # as it does for every TaskiqResult(...) call)
+        return TaskiqResult(**{k: getattr(back, k) for k in ("is_err", "log", "return_value", "execution_time", "labels", "error")})
+    return back
 
 
 def run_c19(spec: Dict[str, Any]) -> "tuple[List[Violation], Dict[str, Any]]":
@@ -591,7 +596,7 @@ def run_c19(spec: Dict[str, Any]) -> "tuple[List[Violation], Dict[str, Any]]":
         surr = has_surrogate(excs)
         try:
             res = TaskiqResult(is_err=True, return_value=None, execution_time=0.1, error=root)
-            if spec.get("prior_dump") and mode != "pickle":
+            if spec.get("prior_dump") and not mode.startswith("pickle"):
                 res = TaskiqResult(is_err=True, return_value=None, execution_time=0.1, error=RuntimeError("decoy", 0))
                 res.model_dump_json()
                 res.model_dump(mode="json")
@@ -619,11 +624,13 @@ def run_c19(spec: Dict[str, Any]) -> "tuple[List[Violation], Dict[str, Any]]":
             v.append(Violation(kind, f"{mode}: loaded error is {err!r} for original {type(root).__name__}", {"mode": mode}))
             continue
         problems: List[str] = []
-        if mode == "pickle":
-            rel = class_relation(root, err, mode)
+        if mode.startswith("pickle"):
+            rel = class_relation(root, err, "pickle")
             if rel:
                 if type(root) in (Exception, BaseException) and hasattr(root, "extra_state") and names_class(err, type(root)) \
-                        and type(err).__name__ == "_UnpickleableExceptionWrapper":
+                        and (type(err).__name__ == "_UnpickleableExceptionWrapper"
+                             or (mode == "pickle+init" and type(err) is not type(root) and type(err).__name__ == type(root).__name__)):
+                    # (F13; in the pickle+init mode the wrapper has been turned into its same-named synthetic class)
                     v.append(Violation("bare-exception-with-unpicklable-state", f"pickle: {rel}", {"mode": mode}))
                 else:
                     problems.append(rel)
